@@ -38,3 +38,61 @@ def header(top, draft):
     if draft == '02':
         return b'mi-sha256-draft2=' + base64.urlsafe_b64encode(top).rstrip(b'=')
     return b'mi-sha256-03=' + base64.b64encode(top)
+
+
+# ---- the source reader handed to NewDecoder is an input of its own (op mice.dec.src <kind>[:<prefix>] ...; model side: alias of mice.dec)
+SRC_SIZED = ['reader', 'reader.read', 'strings', 'section']            # have Size(): total length of the underlying data, not what is unread
+SRC_OTHER = ['section.off', 'buffer', 'plain', 'onebyte', 'limit', 'multi', 'file']
+SRC_KINDS = SRC_SIZED + SRC_OTHER
+
+
+def _hx(b):
+    return b.hex() if b else '-'
+
+
+def src_positions(rng):
+    """honest streams that do not start at offset 0 of their reader: every prefix length modulo the unit size rs+32 (and one past a
+    whole unit), through every reader kind that knows its total size and the other kinds in rotation; every stream must decode"""
+    k = 0
+    for d in ('02', '03'):
+        for rs, n in ((1, 3), (3, 7), (16, 41), (16, 48), (100, 250)):
+            p = bytes(rng.getrandbits(8) for _ in range(n))
+            s, h = encode(p, rs, d)
+            prefixes = list(range(0, rs + 34)) if rs <= 16 else [0, 1, 7, 8, 9, 31, 32, 33, 40, 99, 100, 101, 124, 131, 132, 133, 4096]
+            for P in prefixes:
+                k += 1
+                for kind in SRC_SIZED[(0 if k % 2 else 1)::2] + ['section' if k % 2 else 'strings'] + [SRC_OTHER[k % len(SRC_OTHER)]]:
+                    yield f'mice.dec.src {kind}:{P} {d} 16384 {_hx(h)} {_hx(s)} {("-", f"1,0,{rs}", "4096", f"{rs + 1},{rs}")[k % 4]}'
+        # the empty payload of each draft and a one-record payload behind a prefix
+        for n in (0, 1):
+            s, h = encode(b'x' * n, 16, d)
+            for P in (0, 1, 8, 17, 40, 47, 48):
+                for kind in SRC_KINDS:
+                    yield f'mice.dec.src {kind}:{P} {d} 16384 {_hx(h)} {_hx(s)} -'
+
+
+def src_refusals(rng):
+    """streams NewDecoder must refuse (record size 0 / above the caller's limit) or cannot start (shorter than the 8-byte field), with
+    0, 1, 300, 5000 bytes of data behind the field, through every reader kind: refused with at most the 8-byte field consumed from
+    the caller's reader; plus honest streams (short, multi-record, long final record) through every kind"""
+    for d in ('02', '03'):
+        p = bytes(rng.getrandbits(8) for _ in range(40))
+        s, h = encode(p, 16, d)
+        for tail in (b'', b'\x00', (s[8:] * 6)[:300], bytes(rng.getrandbits(8) for _ in range(5000))):
+            for mx, nrs in ((16384, 0), (16384, 16385), (16, 17), (16384, 2**32), (16384, 2**63), (16384, 2**64 - 1), (2**63, 2**63 + 1)):
+                for kind in SRC_KINDS:
+                    for P in ((0, 5) if len(tail) == 300 else (0,)):
+                        yield f'mice.dec.src {kind}:{P} {d} {mx} {_hx(h)} {_hx(nrs.to_bytes(8, "big") + tail)} -'
+        for cut in (0, 1, 7):
+            for kind in SRC_KINDS:
+                yield f'mice.dec.src {kind}:0 {d} 16384 {_hx(h)} {_hx(s[:cut])} -'
+                yield f'mice.dec.src {kind}:3 {d} 16384 {_hx(h)} {_hx(s[:cut])} 1'
+        for rs, n in ((16, 40), (100, 513), (4096, 9000)):
+            p = bytes(rng.getrandbits(8) for _ in range(n))
+            s2, h2 = encode(p, rs, d)
+            for kind in SRC_KINDS:
+                yield f'mice.dec.src {kind}:0 {d} 16384 {_hx(h2)} {_hx(s2)} {rs - 1},1,4096'
+                if rs == 16:
+                    yield f'mice.dec.src {kind}:0 {d} 16384 {_hx(h2)} {_hx(s2[:-1])} -'
+                    yield f'mice.dec.src {kind}:0 {d} 16384 {_hx(h2)} {_hx(s2[:8 + 16 + 20])} -'      # cut inside a proof
+                    yield f'mice.dec.src {kind}:11 {d} 16384 {_hx(h2)} {_hx(s2 + b"!")} 7,7,7'
